@@ -424,7 +424,7 @@ def parEngine (c i : List String) : Option Res := do
         if !(cfg.kind == 2 && !(allImpacted fam)) then
           fails := s!"C03:maximize() does not report: the parallel run ends in {status} ({ncrash} crashed workers)" :: fails
       match outT with
-      | [ex, bv, lb, ub, explored, _polls] =>
+      | ex :: bv :: lb :: ub :: explored :: _polls :: gapT =>
         let lb ← int? lb; let ub ← int? ub; let explored ← nat? explored
         let value := bv.toInt?
         let sol := if solT == ["none"] then none else if solT == ["e"] then some [] else (ints? solT).map parseDecs
@@ -439,6 +439,7 @@ def parEngine (c i : List String) : Option Res := do
         -- the solver-level clauses belong to C03 when uninterrupted
         let pf := pf.map (fun s => if s.startsWith "C01:" then "C03:" ++ (s.drop 4).toString else s)
         let pf := withFeatureFails cfg.cache fam.domRule.isSome pf
+        let pf := pf ++ gapFails lb ub gapT
         fails := pf ++ fails
         pure { agree := agree, phi := fails.isEmpty, model := ms, note := failNote fails ++ (if agree then "" else " TRACE: " ++ why) }
       | _ =>
@@ -455,12 +456,13 @@ def parstressEngine (c i : List String) : Option Res := do
     let (fam, _) ← parseFam famT
     let cfg ← parseSCfg [p1, p2, p3, p4]
     match splitAt "|" i with
-    | [[ex, bv, lb, ub, _explored, _polls], solT] =>
+    | [ex :: bv :: lb :: ub :: _explored :: _polls :: gapT, solT] =>
       let lb ← int? lb; let ub ← int? ub
       let value := bv.toInt?
       let sol := if solT == ["none"] then none else if solT == ["e"] then some [] else (ints? solT).map parseDecs
       let pf := phiSolver fam (cfg.kind == 2) cfg.primal (ex == "0") (ex == "1") value lb ub sol
       let pf := pf.map (fun s => if s.startsWith "C01:" then "C03:" ++ (s.drop 4).toString else s)
+      let pf := pf ++ gapFails lb ub gapT
       pure { agree := true, phi := pf.isEmpty, model := "(phi only)", note := failNote pf }
     | [["panic"]] => pure { agree := true, phi := false, model := "-", note := "F:C04 [C04:the parallel solver panics in a free-running stress run] F:C03 [C03:maximize() does not report: panic in a free-running stress run]" }
     | [["hang"]] => pure { agree := true, phi := false, model := "-", note := "F:C04 [C04:maximize() did not return within the watchdog delay in a free-running stress run (deadlock or livelock)] F:C03 [C03:maximize() does not report: no return within the watchdog delay in a free-running stress run]" }
